@@ -55,3 +55,25 @@ Fixpoint group (sizes : list nat) (xs : list (list (qentry idiff))) : list (list
 Definition replica_after (s0 : Z) (es : list wire_event) (cuts : list nat) : Z * Z :=
   let (per_step, mf) := step_entries (id_init s0) es in
   (fold_left (replica_batch Z idiff id_apply id_unapply) (group cuts per_step) s0, st Z idiff mf).
+
+(* the same schedule run through the flush-and-clear system of UserModel/Flush.v: the queue is
+   emptied at every cut, all batches stay in flight until the end and are then delivered in
+   order. Second, independent route to the replica's final state. *)
+From IronCalc Require Import UserModel.Flush.
+Inductive wire_fevent := WE (e : wire_event) | WFlush | WDeliver.
+Definition id_system := system Z idiff.
+Definition id_fstep (s : id_system) (f : wire_fevent) : id_system :=
+  match f with
+  | WE e => {| prim := wire_step (prim Z idiff s) e; inflight := inflight Z idiff s; repl := repl Z idiff s |}
+  | WFlush => fstep Z idiff id_apply id_unapply s Flush
+  | WDeliver => fstep Z idiff id_apply id_unapply s Deliver
+  end.
+Fixpoint interleave (cuts : list nat) (es : list wire_event) : list wire_fevent :=
+  match cuts with
+  | [] => map WE es ++ [WFlush]
+  | n :: ns => map WE (firstn n es) ++ WFlush :: interleave ns (skipn n es)
+  end.
+Definition flush_after (s0 : Z) (es : list wire_event) (cuts : list nat) : Z * Z :=
+  let sched := interleave cuts es ++ repeat WDeliver (S (length cuts)) in
+  let s := fold_left id_fstep sched (finit Z idiff s0) in
+  (repl Z idiff s, st Z idiff (prim Z idiff s)).
